@@ -1,0 +1,73 @@
+//go:build verif
+
+// ASSUMED contracts for package chains/ethereum (used by C15/C02 in action/eth). Comment-only file, read by /verif/govc.
+// Everything here is an external-dependency boundary: RLP decoding of an Ethereum transaction and go-ethereum ABI
+// parsing (abi.JSON, Pack, hex/strings splitting). The bodies are not verified. What is assumed: the parsers are
+// functions of their inputs, do not touch verified state, return a non-nil request with a non-negative amount when
+// they report no error (RLP and ABI-encoded uint256 cannot encode negative integers) and a nil request otherwise.
+//
+// C18 history: before fix 4c56955 the hex-splitting parsers indexed ss[1] after strings.Split without checking
+// len(ss) >= 2; the helpers are now verified for index/slice safety at the end of this file.
+
+package ethereum
+
+// amount locked by the signed Ethereum transaction `data` (its value field)
+//@ ghost func ethLockAmt(data string) int
+// amount of the redeem request encoded in the signed Ethereum transaction `data` under contract ABI `abi`
+//@ ghost func ethRedeemAmt(data string, abi string) int
+// token amount of an ERC20 lock (transfer) / ERC20 redeem request
+//@ ghost func erc20LockAmt(data string) int
+//@ ghost func erc20RedeemAmt(data string, abi string) int
+
+//@ assume func ParseLock
+//@   modifies nothing
+//@   ensures err == nil ==> req != nil && fresh(req) && req.Amount != nil && fresh(req.Amount) && big(req.Amount) == ethLockAmt(str(data)) && big(req.Amount) >= 0
+//@   ensures err != nil ==> req == nil
+
+// redeemParses(data, abi): ParseRedeem accepts the transaction bytes under that ABI
+//@ ghost func ethRedeemParses(data string, abi string) bool
+//@ assume func ParseRedeem
+//@   modifies nothing
+//@   ensures (err == nil) == ethRedeemParses(str(data), lockredeemAbi)
+//@   ensures err == nil ==> req != nil && fresh(req) && req.Amount != nil && fresh(req.Amount) && big(req.Amount) == ethRedeemAmt(str(data), lockredeemAbi) && big(req.Amount) >= 0
+//@   ensures err != nil ==> req == nil
+
+//@ assume func DecodeTransaction
+//@   modifies nothing
+//@   ensures err == nil ==> result0 != nil && fresh(result0)
+//@   ensures err != nil ==> result0 == nil
+
+//@ assume func VerifyLock
+//@   modifies nothing
+
+//@ assume func VerfiyERC20Lock
+//@   modifies nothing
+
+//@ assume func GetToken
+//@   modifies nothing
+//@   ensures result0 != nil && fresh(result0)
+
+//@ assume func ParseErc20Lock
+//@   modifies nothing
+//@   ensures err == nil ==> result0 != nil && fresh(result0) && result0.TokenAmount != nil && fresh(result0.TokenAmount) && big(result0.TokenAmount) == erc20LockAmt(str(rawEthTx)) && big(result0.TokenAmount) >= 0
+
+//@ assume func ParseERC20RedeemParams
+//@   modifies nothing
+//@   ensures err == nil ==> result0 != nil && fresh(result0) && result0.Amount != nil && fresh(result0.Amount) && big(result0.Amount) == erc20RedeemAmt(str(rawTx), lockredeemERCAbi) && big(result0.Amount) >= 0
+//@   ensures err != nil ==> result0 == nil
+
+//@ assume func ParseERC20RedeemToken
+//@   modifies nothing
+//@   ensures err == nil ==> result0 != nil && fresh(result0)
+//@   ensures err != nil ==> result0 == nil
+
+// ---------------------------------------------------------------- C18 (verified, NOT assumed)
+// The two hex-splitting helpers behind VerfiyERC20Lock / ParseErc20Lock / ParseERC20RedeemParams: `data` is the
+// user-supplied ETHTxn of an ERC20Lock / ERC20Redeem transaction; every index and slice expression is in range
+// (strings.Split is modelled as an arbitrary slice, so the proof rests only on the explicit length checks).
+//@ func parseERC20Lock
+//@   safety C18
+//@   modifies nothing
+//@ func parseERC20Redeem
+//@   safety C18
+//@   modifies nothing
